@@ -18,7 +18,7 @@ BUDGET = {'quick': 420, 'thorough': 1800}
 SOURCES = ['src/dtaidistance/clustering/kmeans.py', 'src/dtaidistance/clustering/medoids.py', 'src/dtaidistance/dtw_barycenter.py', 'src/dtaidistance/dtw.py']
 FUNCTIONS = ['KMeans.__init__/fit(use_parallel=False)', 'KMeans.kmeansplusplus_centers', 'kmeans._distance_with_params, _dba_loop_with_params', 'dtw_barycenter.dba_loop / dba']
 BOUNDS = {'quick': {'n series': '3', 'series length': '1..2 (max_it = 1: length 1)', 'k': '2', 'max_it': '0, 1', 'max_dba_it': '1', 'initialisation': 'random, k-means++ (sample size 1; max_it = 0)',
-                    'drop_stddev': 'None, 1', 'thr': '1e-4 and 0.5'},
+                    'drop_stddev': 'None, 1', 'thr': '1e-4 and 0.5', 'dists_options': 'none; window=1, symbolic penalty (lengths 2,1,1 / 1,1,1); psi=1 (lengths 2,2,2)'},
           'thorough': {'n series': '3..4', 'series length': '1..2', 'k': '2', 'max_it': '0, 1, 2', 'initialisation': 'random, k-means++ (sample sizes 1, 2)'}}
 OUTSIDE = ['max_it above the bound', 'use_parallel=True (multiprocessing)', 'use_c (the C routines are tied to the Python ones by C02/C12)', 'nb_prob_samples',
            'k-medoids initialisation (PyClustering)', 'floating point rounding']
@@ -30,12 +30,12 @@ EXPLANATION = 'bounded symbolic model checking of the k-means loop, solver = z3'
 
 def tasks(tier, seed):
     ts = []
-    def add(lens, init, max_it, thr, drop):
+    def add(lens, init, max_it, thr, drop, dopts='none'):
         n = len(lens)
         ranges = [n, n - 1, n, n] if init == 'random' else [n, n]
         for draws in itertools.product(*[range(r_) for r_ in ranges]):
-            ts.append({'harness': 'fit/%s/it%d' % (init, max_it), 'lens': lens, 'init': init, 'max_it': max_it, 'thr': thr, 'drop': drop,
-                       'draws': list(draws), 'est': 20 ** (max_it + 1) * sum(lens)})
+            ts.append({'harness': 'fit/%s/it%d' % (init, max_it) + ('' if dopts == 'none' else '/' + dopts), 'lens': lens, 'init': init, 'max_it': max_it,
+                       'thr': thr, 'drop': drop, 'dopts': dopts, 'draws': list(draws), 'est': 20 ** (max_it + 1) * sum(lens)})
     for lens in ([1, 1, 1], [2, 1, 1]) + (([2, 2, 1], [1, 1, 1, 1]) if tier == 'thorough' else ()):
         for init in ('random', 'kmeanspp'):
             add(lens, init, 0, 1e-4, None)
@@ -44,7 +44,15 @@ def tasks(tier, seed):
     add([1, 1, 1], 'random', 1, 1e-4, 1)
     add([1, 1, 1], 'kmeanspp', 1, 0.5, None)
     add([2, 1, 1], 'random', 1, 0.5, None)
+    # DTW options handed to the distance routines: the nearest mean is judged under the same options
+    add([2, 1, 1], 'random', 0, 1e-4, None, 'window1')
+    add([2, 1, 1], 'random', 0, 1e-4, None, 'penalty')
+    add([1, 1, 1], 'random', 1, 0.5, None, 'penalty')
+    add([2, 2, 2], 'random', 0, 1e-4, None, 'psi1')
     if tier == 'thorough':
+        add([2, 2, 1], 'random', 0, 1e-4, None, 'window1')
+        add([2, 2, 2], 'kmeanspp', 0, 1e-4, None, 'psi1')
+        add([2, 2, 1], 'random', 1, 0.5, None, 'penalty')
         add([1, 1, 1], 'kmeanspp', 1, 1e-4, None)
         add([2, 2, 1], 'random', 1, 0.5, None)
         add([1, 1, 1], 'random', 2, 0.5, None)
@@ -120,13 +128,25 @@ def run_task(cfg):
     sv = [[z3.Real('s%d_%d' % (q, j)) for j in range(lens[q])] for q in range(n)]
     syms = {str(x): x for row in sv for x in row}
     series = [pysym.objarray([SReal(x) for x in row]) for row in sv]
-    meta = {kk: cfg.get(kk) for kk in ('harness', 'lens', 'init', 'max_it', 'thr', 'drop', 'draws')}
+    meta = {kk: cfg.get(kk) for kk in ('harness', 'lens', 'init', 'max_it', 'thr', 'drop', 'draws', 'dopts')}
     assume = []
+    dopts = cfg.get('dopts', 'none')
+    PEN = z3.Real('P')
+    o_window, o_pen, o_psi = None, 0, None
+    dists_options = {}
+    if dopts == 'window1':
+        dists_options, o_window = {'window': 1}, 1
+    elif dopts == 'penalty':
+        dists_options, o_pen = {'penalty': SReal(PEN)}, pysym.square_term(PEN)
+        assume.append(PEN >= 0)
+        syms['P'] = PEN
+    elif dopts == 'psi1':
+        dists_options, o_psi = {'psi': 1}, 1
 
     def run():
         del PREDRAW[:]
         PREDRAW.extend(cfg.get('draws', []))
-        model = km.KMeans(k=k, max_it=max_it, max_dba_it=1, thr=thr, drop_stddev=drop, dists_options={}, show_progress=False,
+        model = km.KMeans(k=k, max_it=max_it, max_dba_it=1, thr=thr, drop_stddev=drop, dists_options=dict(dists_options), show_progress=False,
                           initialize_with_kmeanspp=(init == 'kmeanspp'), initialize_with_kmedoids=False,
                           initialize_sample_size=1 if init == 'kmeanspp' else None)
         mon = []
@@ -169,7 +189,7 @@ def run_task(cfg):
         for i in range(n):
             for j in range(k):
                 D = [[pysym.square_term(a - b) for b in mt[j]] for a in sv[i]]
-                dist[(i, j)] = spec.spec_dtw(D, lens[i], len(mt[j]), None, 0, None)
+                dist[(i, j)] = spec.spec_dtw(D, lens[i], len(mt[j]), o_window, o_pen, o_psi)
         for j, members in clusters.items():
             for i in members:
                 for l in range(k):
@@ -200,12 +220,14 @@ def replay(cex):
     lens, init, max_it, thr, drop = cex['lens'], cex['init'], cex['max_it'], cex['thr'], cex['drop']
     n, k = len(lens), 2
     series = [np.array([float(inp.get('s%d_%d' % (q, j), 0)) for j in range(lens[q])]) for q in range(n)]
+    dopts = cex.get('dopts') or 'none'
+    dists_options = {'none': {}, 'window1': {'window': 1}, 'penalty': {'penalty': float(inp.get('P', 0))}, 'psi1': {'psi': 1}}[dopts]
     worst = None
     for seed in range(40):
         random.seed(seed)
         np.random.seed(seed)
         try:
-            model = KMeans(k=k, max_it=max_it, max_dba_it=1, thr=thr, drop_stddev=drop, dists_options={}, show_progress=False,
+            model = KMeans(k=k, max_it=max_it, max_dba_it=1, thr=thr, drop_stddev=drop, dists_options=dict(dists_options), show_progress=False,
                            initialize_with_kmeanspp=(init == 'kmeanspp'), initialize_with_kmedoids=False,
                            initialize_sample_size=1 if init == 'kmeanspp' else None)
             clusters, it = model.fit(list(series), use_parallel=False)
@@ -219,9 +241,9 @@ def replay(cex):
         else:
             for j, members in clusters.items():
                 for i in members:
-                    dj = dtw.distance(series[i], np.asarray(model.means[j], dtype=float))
+                    dj = dtw.distance(series[i], np.asarray(model.means[j], dtype=float), **dists_options)
                     for l in range(k):
-                        dl = dtw.distance(series[i], np.asarray(model.means[l], dtype=float))
+                        dl = dtw.distance(series[i], np.asarray(model.means[l], dtype=float), **dists_options)
                         if dl < dj * (1 - 1e-9) - 1e-12:
                             bad = 'series %d is in cluster %d (d=%r) but mean %d is nearer (d=%r)' % (i, j, dj, l, dl)
         if bad:
